@@ -231,6 +231,12 @@ def _history(ctx, inj, idx):
         rig.wait(lambda: _count_unsol(rig, peer) >= len(peer.unsol_sent), 5.0)
         boundaries.append((len(peer.unsol_sent), _count_unsol(rig, peer)))
         if cyc < cycles - 1:
+            if rng.random() < 0.5:
+                # the link is lost in the middle of an inbound message
+                fr = wire.hsms_data(6, 11, True, 0x7F000000 + cyc, rng.randbytes(rng.choice([0, 40, 400])))
+                rig.pipe.feed(fr[:rng.choice([3, 4, 6, 14, len(fr) - 1])])
+                rig.quiesce(0.5)
+                ctx.count("reconnect.link_lost_inside_a_frame")
             rig.pipe.peer_close()
             if not rig.pipe.wait_closed(5.0):
                 ctx.count("close_sequence_did_not_finish")
